@@ -120,47 +120,7 @@ def check_decoder_side(ctx, rep, R3="I3", R4="I4"):
     return arities, reader
 
 
-def run(ctx, rep):
-    fo = ctx.fold
-    # ---- I1 / I2
-    try:
-        alpha = fo.global_value("selfies.constants", "INDEX_ALPHABET")
-    except FoldError as e:
-        alpha = None
-        rep.ob("I1", False, None, None, loc="selfies/constants.py", construct="INDEX_ALPHABET",
-               witness="index alphabet is not a closed constant table: %s" % e, key="alphabet/unfoldable")
-    try:
-        code = fo.global_value("selfies.constants", "INDEX_CODE")
-    except FoldError as e:
-        code = None
-        rep.ob("I2", False, None, None, loc="selfies/constants.py", construct="INDEX_CODE",
-               witness="index code is not a plain closed table: %s" % e, key="code/unfoldable")
-    if alpha is not None:
-        alpha = tuple(alpha) if isinstance(alpha, (list, tuple)) else None
-        for k, want in enumerate(SPEC.INDEX_SYMBOLS):
-            got = alpha[k] if alpha is not None and k < len(alpha) else None
-            rep.ob("I1", got == want, None, None, loc="selfies/constants.py", construct="INDEX_ALPHABET[%d]" % k,
-                   how="equals documented symbol %s" % want, key="alphabet/%d" % k,
-                   witness=None if got == want else "digit %d is %r, documented %r" % (k, got, want))
-        ok = alpha is not None and len(alpha) == SPEC.INDEX_BASE
-        rep.ob("I1", ok, None, None, loc="selfies/constants.py", construct="len(INDEX_ALPHABET)", how="16 symbols",
-               key="alphabet/len", witness=None if ok else "index alphabet has %s symbols" % (len(alpha) if alpha else "?"))
-        # cross-check of the doc table through the CHANGELOG renaming
-        ren = SPEC.legacy_table()
-        doc = tuple(ren.get(s, s) for s in SPEC.DOC_INDEX_SYMBOLS_V1)
-        rep.ob("I1", doc == SPEC.INDEX_SYMBOLS, None, None, loc="docs/source/derivation.rst", construct="doc index table via v2 renaming",
-               how="specification tables agree", key="alphabet/doc-consistent")
-    if code is not None:
-        want = {s: i for i, s in enumerate(SPEC.INDEX_SYMBOLS)}
-        ok = isinstance(code, dict) and type(code) is dict and code == want
-        rep.ob("I2", ok, None, None, loc="selfies/constants.py", construct="INDEX_CODE",
-               how="inverse enumeration of the documented alphabet", key="code/inverse", nontrivial=True,
-               witness=None if ok else "INDEX_CODE differs from the inverse of the documented alphabet: %s"
-               % sorted(set(want.items()) ^ set(code.items() if isinstance(code, dict) else []))[:4])
-    rep.floor("I1", 17)
-
-    arities, reader = check_decoder_side(ctx, rep)
-    rep.floor("I3", 6)
+def check_encoder_side(ctx, rep, R5="I5"):
     # ---- I5 encoder side
     gsi = ctx.fn("selfies.grammar_rules.get_selfies_from_index")
 
@@ -179,16 +139,16 @@ def run(ctx, rep):
     neg_raises = [st for st, node, exc in fr.raises if st.entails(le(n, -1))]
     neg_returns = [st for st, v in fr.returns if not st.entails(ge(n, 0))]
     ok = bool(neg_raises) and not neg_returns
-    rep.ob("I5", ok, gsi.node, gsi, construct="negative index", how="rejected with an exception, never converted",
+    rep.ob(R5, ok, gsi.node, gsi, construct="negative index", how="rejected with an exception, never converted",
            witness=None if ok else "a negative index can be converted to symbols", key="negative", nontrivial=True)
     zero = [(st, v) for st, v in fr.returns if st.entails(eq(n, 0))]
     first = SPEC.INDEX_SYMBOLS[0]
     ok = bool(zero) and all(isinstance(v, Tup) and len(v.items) == 1 and isinstance(v.items[0], Con) and v.items[0].value == first
                             for st, v in zero)
-    rep.ob("I5", ok, gsi.node, gsi, construct="index 0", how="-> [%s]" % first,
+    rep.ob(R5, ok, gsi.node, gsi, construct="index 0", how="-> [%s]" % first,
            witness=None if ok else "index 0 is not converted to the single digit-0 symbol", key="zero", nontrivial=True)
     other = [st for st, node, exc in fr.raises if not st.entails(le(n, -1))]
-    rep.ob("I5", not other, gsi.node, gsi, construct="non-negative index", how="never raises",
+    rep.ob(R5, not other, gsi.node, gsi, construct="non-negative index", how="never raises",
            witness=None if not other else "conversion of a non-negative index can raise", key="total")
     lp = h5.loop
     if lp is None:
@@ -238,9 +198,53 @@ def run(ctx, rep):
         test_ok = isinstance(lp["node"], ast.While) and (unparse(lp["node"].test) in (idxp, "%s > 0" % idxp, "%s != 0" % idxp))
         if not test_ok:
             probs.append("loop does not run while the remaining index is non-zero")
-        rep.ob("I5", not probs, lp["node"], gsi, construct="digit loop", how="digit = index % 16 looked up in INDEX_ALPHABET; index //= 16; big-endian",
+        rep.ob(R5, not probs, lp["node"], gsi, construct="digit loop", how="digit = index % 16 looked up in INDEX_ALPHABET; index //= 16; big-endian",
                witness="; ".join(sorted(set(probs))) or None, nontrivial=True,
                key="loop/" + ("ok" if not probs else "+".join(sorted(set(p[:30] for p in probs)))))
+
+
+def run(ctx, rep):
+    fo = ctx.fold
+    # ---- I1 / I2
+    try:
+        alpha = fo.global_value("selfies.constants", "INDEX_ALPHABET")
+    except FoldError as e:
+        alpha = None
+        rep.ob("I1", False, None, None, loc="selfies/constants.py", construct="INDEX_ALPHABET",
+               witness="index alphabet is not a closed constant table: %s" % e, key="alphabet/unfoldable")
+    try:
+        code = fo.global_value("selfies.constants", "INDEX_CODE")
+    except FoldError as e:
+        code = None
+        rep.ob("I2", False, None, None, loc="selfies/constants.py", construct="INDEX_CODE",
+               witness="index code is not a plain closed table: %s" % e, key="code/unfoldable")
+    if alpha is not None:
+        alpha = tuple(alpha) if isinstance(alpha, (list, tuple)) else None
+        for k, want in enumerate(SPEC.INDEX_SYMBOLS):
+            got = alpha[k] if alpha is not None and k < len(alpha) else None
+            rep.ob("I1", got == want, None, None, loc="selfies/constants.py", construct="INDEX_ALPHABET[%d]" % k,
+                   how="equals documented symbol %s" % want, key="alphabet/%d" % k,
+                   witness=None if got == want else "digit %d is %r, documented %r" % (k, got, want))
+        ok = alpha is not None and len(alpha) == SPEC.INDEX_BASE
+        rep.ob("I1", ok, None, None, loc="selfies/constants.py", construct="len(INDEX_ALPHABET)", how="16 symbols",
+               key="alphabet/len", witness=None if ok else "index alphabet has %s symbols" % (len(alpha) if alpha else "?"))
+        # cross-check of the doc table through the CHANGELOG renaming
+        ren = SPEC.legacy_table()
+        doc = tuple(ren.get(s, s) for s in SPEC.DOC_INDEX_SYMBOLS_V1)
+        rep.ob("I1", doc == SPEC.INDEX_SYMBOLS, None, None, loc="docs/source/derivation.rst", construct="doc index table via v2 renaming",
+               how="specification tables agree", key="alphabet/doc-consistent")
+    if code is not None:
+        want = {s: i for i, s in enumerate(SPEC.INDEX_SYMBOLS)}
+        ok = isinstance(code, dict) and type(code) is dict and code == want
+        rep.ob("I2", ok, None, None, loc="selfies/constants.py", construct="INDEX_CODE",
+               how="inverse enumeration of the documented alphabet", key="code/inverse", nontrivial=True,
+               witness=None if ok else "INDEX_CODE differs from the inverse of the documented alphabet: %s"
+               % sorted(set(want.items()) ^ set(code.items() if isinstance(code, dict) else []))[:4])
+    rep.floor("I1", 17)
+
+    arities, reader = check_decoder_side(ctx, rep)
+    rep.floor("I3", 6)
+    check_encoder_side(ctx, rep)
     rep.floor("I5", 3)
     rep.analysed.update({"arities": arities, "index_reader": reader.qual})
 
